@@ -661,12 +661,12 @@ def run_family(res, prop, prop_mod, cases, dcases=None, spec_on_streams=True, ru
         last = chunks[-1] if chunks else []
         covered = sum(o.get("ref_w") or [])
         held = flat[covered:]
-        if held and len(last) < 256 and held[:6] != [27, 91, 50, 48, 48, 126] and not any("PANIC" in x for x in (o.get("ref") or [])):
+        if held and not _open_paste(held) and not any("PANIC" in x for x in (o.get("ref") or [])):
             bad_held.append((i, held))
-    res.oblige("Spec on real output: after a short last read nothing is held back (unless a paste is still open): the runs cover the whole input",
+    res.oblige("Spec on real output: when the input has ended nothing is held back (unless a paste is still open): the runs cover the whole input",
                not bad_held, [(cases[i]["chunks"][-2:], h[:8]) for i, h in bad_held[:2]])
     for i, h in bad_held[:1]:
-        res.violation("%s:held-back" % prop, "the input ended after a short read and %d byte(s) %s were never turned into a message" % (len(h), h[:8]),
+        res.violation("%s:held-back" % prop, "the input ended and %d byte(s) %s were never turned into a message" % (len(h), h[:8]),
                       {"chunks": cases[i]["chunks"], "real": routs[i].get("msgs"), "widths": routs[i].get("ref_w")})
         found = True
     if real_oracle:
@@ -694,6 +694,14 @@ def run_family(res, prop, prop_mod, cases, dcases=None, spec_on_streams=True, ru
     return res.finish(rule=rule, trusted_extra=(extra_trusted or []) + [
         "Go regexp, strconv.Atoi, unicode/utf8 are mirrored by model functions (match_sgr, unknown_csi, incomplete_csi, atoi_sat, decode_rune, full_rune) and compared with the real library through the harness",
         "content of unknownCSISequenceMsg is compared by length only for messages that crossed the reader's channel (the slice aliases the read buffer; see DESIGN.md F11)"])
+
+
+def _open_paste(held):
+    """the held-back bytes start a bracketed paste that never ends"""
+    start, end = [27, 91, 50, 48, 48, 126], [27, 91, 50, 48, 49, 126]
+    if held[:6] != start:
+        return False
+    return not any(held[i:i + 6] == end for i in range(6, len(held) - 5))
 
 
 def shrink_stream(prop, case, out):
